@@ -12,7 +12,7 @@
 (*    V_GetAlgText -> V_CheckAlgorithm -> V_UseVerifyingKey -> V_DecodeBlob        *)
 (*    -> V_CryptoVerify.                                                           *)
 (* `Defects` re-introduces what the pinned tree does at four of those points       *)
-(* (and three artificial mutations, used as sensitivity runs); Defects = {} is     *)
+(* (and four artificial mutations, used as sensitivity runs); Defects = {} is      *)
 (* the property as stated.                                                         *)
 EXTENDS Naturals, FiniteSets, TLC
 
@@ -24,7 +24,8 @@ KnownDefects == {"ed_no_verify_key",   \* Ed25519Key(filename=..)/(file_obj=..) 
                  "ed_sig_length",      \* nacl VerifyKey.verify raises ValueError unless the blob has 64 bytes
                  "ecdsa_negative",     \* encode_dss_signature raises ValueError for a negative r or s
                  "alg_not_text"}       \* Message.get_text raises UnicodeDecodeError on a non-UTF-8 name
-Mutations    == {"mut_skip_alg_check", "mut_ignore_data", "mut_ignore_hash"}
+Mutations    == {"mut_skip_alg_check", "mut_ignore_data", "mut_ignore_hash",
+                 "mut_strip_zeros"}    \* RSA verifier strips all leading zero octets and re-pads (seeded change C35a)
 ASSUME Defects \subseteq KnownDefects \cup Mutations
 
 (* ------------------------------ key objects ------------------------------ *)
@@ -90,8 +91,12 @@ GenuineWire(s, a) == [alg |-> NameF(a), blob |-> Sig(s.type, s.mat, SignHash(s.t
 T(c)       == [cls |-> c, arg |-> "-"]
 TAlg(n)    == [cls |-> "alg_known", arg |-> n]
 NoTamper   == T("none")
-Whys(t)    == CASE Family(t) = "rsa"     -> {"blob_empty", "blob_short", "blob_long"}
-                [] Family(t) = "ed25519" -> {"blob_empty", "blob_short", "blob_long"}
+\* "blob_zero_prepended": the genuine signature string with 0x00 octets in FRONT (over-long, length field
+\* adjusted; "mpint-style" re-encoding).  Not the signature the key produced and not of the modulus / 64-octet
+\* length: an altered signature that must be rejected.  (The SHORTER form - leading zero octets dropped - is the
+\* interop alias "blob_alias", for which only an answer is demanded.)
+Whys(t)    == CASE Family(t) = "rsa"     -> {"blob_empty", "blob_short", "blob_long", "blob_zero_prepended"}
+                [] Family(t) = "ed25519" -> {"blob_empty", "blob_short", "blob_long", "blob_zero_prepended"}
                 [] OTHER -> {"blob_empty", "inner_negative", "inner_zero", "inner_oversized", "inner_truncated"}
 HasAlias(t) == Family(t) # "ed25519"     \* RSA: leading zero bytes dropped; ECDSA: non-minimal mpint / trailing bytes
 Tampers(t, a) == {T(c) : c \in {"none", "alg_unknown", "alg_not_text", "blob_garbage", "frame", "trunc"}}
@@ -110,6 +115,8 @@ Refine(tm, w, t) ==
     [] tm.cls = "alg_not_text" -> {[w EXCEPT !.alg = NotTextF]}
     [] tm.cls = "blob_garbage" -> {[w EXCEPT !.blob = Garbage]}
     [] tm.cls = "blob_alias"   -> {[w EXCEPT !.blob = AliasOf(w.blob)]}
+    \* (keeps the value it was made from, so that a verifier that "normalises" it can be modelled)
+    [] tm.cls = "blob_zero_prepended" -> {[w EXCEPT !.blob = [w.blob EXCEPT !.k = "malformed", !.why = "blob_zero_prepended"]]}
     [] tm.cls = "trunc"        -> {[w EXCEPT !.alg = UnknownF]} \cup {[w EXCEPT !.blob = b] : b \in TruncBlobs(t)}
     \* a corrupted length prefix re-frames the fields: anything a cut can do, a longer blob, or (length
     \* larger than what is there) the very same value again
@@ -134,13 +141,15 @@ UseHash(v, w)    == LET h == VerifierHash(v.type, WireName(w)) IN
 S_CheckAlg(v, w) == IF UseHash(v, w) = "reject" THEN "false" ELSE "go"
 S_UseVerifyingKey(v) == IF v.type = "ed25519" /\ v.prov \in FileProvs /\ "ed_no_verify_key" \in Defects
                         THEN "AttributeError" ELSE "go"
+Normalised(v, w) == /\ "mut_strip_zeros" \in Defects /\ Family(v.type) = "rsa"
+                    /\ w.blob.k = "malformed" /\ w.blob.why = "blob_zero_prepended"
 S_DecodeBlob(v, w) ==
-  IF w.blob.k # "malformed" THEN "go"
+  IF w.blob.k # "malformed" \/ Normalised(v, w) THEN "go"
   ELSE IF Family(v.type) = "ed25519" /\ "ed_sig_length" \in Defects THEN "ValueError"
   ELSE IF Family(v.type) = "ecdsa" /\ w.blob.why = "inner_negative" /\ "ecdsa_negative" \in Defects THEN "ValueError"
   ELSE "false"
 S_Crypto(v, w, d) ==
-  IF /\ w.blob.k \in {"sig", "alias"}
+  IF /\ (w.blob.k \in {"sig", "alias"} \/ Normalised(v, w))
      /\ w.blob.type = v.type /\ w.blob.mat = v.mat
      /\ (w.blob.hash = UseHash(v, w) \/ "mut_ignore_hash" \in Defects)
      /\ (w.blob.data = d \/ "mut_ignore_data" \in Defects)
